@@ -377,8 +377,19 @@ func entityEvents(r *core.Run, info *types.Info) {
 		return
 	}
 	var loop *ast.RangeStmt
+	// the declared events: <*sourcedef_j5pb.Entity>.Events, directly or through a local named once
+	isEvents := func(e ast.Expr) bool {
+		e = core.Unparen(e)
+		if id, ok := e.(*ast.Ident); ok {
+			if def := soleDefinition(info, id); def != nil {
+				e = core.Unparen(def)
+			}
+		}
+		s, ok := e.(*ast.SelectorExpr)
+		return ok && s.Sel.Name == "Events" && strings.HasSuffix(core.TypeStr(info.TypeOf(s.X)), "sourcedef_j5pb.Entity")
+	}
 	for _, st := range fd.Body.List {
-		if rs, ok := st.(*ast.RangeStmt); ok && strings.HasSuffix(core.ExprStr(rs.X), ".Events") {
+		if rs, ok := st.(*ast.RangeStmt); ok && isEvents(rs.X) {
 			loop = rs
 		}
 	}
